@@ -107,7 +107,7 @@ fn container(kind: &str, len: usize) -> Value {
     if kind == "arr" {
         Value::from((0..len).map(|i| Value::from(10 + i as i64)).collect::<Vec<_>>())
     } else {
-        Value::from(CHARS[..len].concat())
+        Value::from((0..len).map(|i| CHARS[i % CHARS.len()]).collect::<String>())
     }
 }
 
@@ -119,6 +119,7 @@ fn hostile_string(rng: &mut Rng) -> String {
         1 => rng.below(4),
         2 => rng.below(12),
         3 => 20 + rng.below(4), // around the 21-byte inline/heap boundary
+        4 => *rng.pick(&[31, 32, 33, 63, 64, 65, 127, 128, 129, 255, 256, 257, 300]), // around power-of-two sizes
         _ => rng.below(40),
     };
     let mut s = String::new();
@@ -233,7 +234,8 @@ pub fn run(cx: &mut Cx) {
         let mut rng = cx.rng(case);
         for _ in 0..40 {
             let kind = if rng.bool() { "arr" } else { "str" };
-            let len = rng.below(13);
+            // one in eight around the power-of-two sizes where chunked loops and inline capacities end
+            let len = if rng.below(8) == 0 { *rng.pick(&[15usize, 16, 17, 23, 24, 25, 31, 32, 33, 63, 64, 65, 127, 128, 129, 255, 256, 257, 300]) } else { rng.below(13) };
             let x = container(kind, len);
             let ps = params_for(len);
             let (a, b, c) = (rng.pick(&ps).clone(), rng.pick(&ps).clone(), rng.pick(&ps).clone());
